@@ -10,6 +10,7 @@ mod zdd;
 mod coord;
 mod dispatch;
 mod wm;
+mod join;
 
 fn main() {
     let args: Vec<String> = std::env::args().collect();
@@ -35,6 +36,7 @@ fn main() {
         "dispatch-replay" => dispatch::replay(rest),
         "wm-replay" => wm::replay(rest),
         "wm-record" => wm::record(rest),
+        "join-replay" => join::replay(rest),
         other => {
             eprintln!("unknown engine {other}");
             std::process::exit(2);
